@@ -8,7 +8,8 @@ import sysconfig
 
 
 class _Finder(importlib.abc.MetaPathFinder):
-    def __init__(self, overlay, repo):
+    def __init__(self, overlay, repo, extra=None):
+        self.extra = extra           # directory searched before the overlay (instrumented single modules)
         self.overlay = overlay
         self.repo = repo
         self.suffix = sysconfig.get_config_var("EXT_SUFFIX")
@@ -18,6 +19,11 @@ class _Finder(importlib.abc.MetaPathFinder):
             init = os.path.join(self.repo, "mdtraj", "__init__.py")
             return importlib.util.spec_from_file_location(
                 "mdtraj", init, submodule_search_locations=[os.path.join(self.repo, "mdtraj")])
+        if fullname.startswith("mdtraj.") and self.extra:
+            so = os.path.join(self.extra, fullname + self.suffix)
+            if os.path.exists(so):
+                loader = importlib.machinery.ExtensionFileLoader(fullname, so)
+                return importlib.util.spec_from_file_location(fullname, so, loader=loader)
         if fullname.startswith("mdtraj."):
             so = os.path.join(self.overlay, fullname + self.suffix)
             if os.path.exists(so):
@@ -26,13 +32,13 @@ class _Finder(importlib.abc.MetaPathFinder):
         return None
 
 
-def install(overlay, repo="/repo"):
+def install(overlay, repo="/repo", extra=None):
     if "mdtraj" in sys.modules:
         raise RuntimeError("overlay must be installed before mdtraj is imported")
     for f in list(sys.meta_path):
         if isinstance(f, _Finder):
             sys.meta_path.remove(f)
-    sys.meta_path.insert(0, _Finder(overlay, repo))
+    sys.meta_path.insert(0, _Finder(overlay, repo, extra))
     os.environ["VERIF_OVERLAY"] = overlay
 
 
